@@ -682,6 +682,7 @@ func genC13(o *vcoq.Out, r *vcoq.Rand, tier string) error {
 	}
 	lookupCases(o, w, g)
 	misuseCases(o, w, g)
+	factsEvidence := factCases(o, g)
 	callerIncomingCases(o)
 	unwrapCases(o, r)
 	sendThenModifyCases(o, r, nIsoSend(tier))
@@ -693,7 +694,7 @@ func genC13(o *vcoq.Out, r *vcoq.Rand, tier string) error {
 	isolationCases(o, r, nIso)
 	abandonCases(o)
 	o.Extra["coverage_extra"] = map[string]any{"transports": []string{"wrap.ServerToClient", "grpc.Server over bufconn"}, "goroutine_checks": len(scs), "deep_isolation_checks": nIso,
-		"send_then_modify_checks": 4 * nIsoSend(tier), "model_branch_classes_hit": len(branchesHit), "client_misuse_cases": 2, "unwrap_cases": 14,
+		"send_then_modify_checks": 4 * nIsoSend(tier), "model_branch_classes_hit": len(branchesHit), "client_misuse_cases": 2, "unwrap_cases": 14, "grpc_reference_facts": factsEvidence,
 		"guard_pass_rate": fmt.Sprintf("%d of %d call scenarios satisfy the theorems' guard wf (Go replica of C13Judge.wf; the generator stays inside the fragment by construction)", nGuard, len(scs))}
 	return nil
 }
